@@ -16,7 +16,8 @@ CLAIMED = {
              "juxtaposed, leading sign, detached signs, assignment rhs) back as that tree and compute its value by the usual "
              "rules, division by zero giving 0. Lexical step, proved in part: on EVERY line over the arithmetic alphabet only the "
              "number, whitespace and operator parsers contribute (sound regex analysis over the regenerated regexes) and "
-             "`d1 op d2` with any blanks lexes to exactly [number; operator; number] for all digit strings; the general "
+             "`d1 op d2` with any blanks lexes to exactly [number; operator; number] for all digit strings, and END TO END the "
+             "public entry point on that TEXT returns the binary64 value and its printed form (C02_text_to_value); the general "
              "text->token step and the model-vs-code tie are a per-run differential check (model executed by vm_compute against "
              "the Rust crate on generated renderings under two separator conventions, bit-exact).",
         design="DESIGN.md section 7 C02", technique="Coq proof by induction on expression trees + model/implementation correspondence"),
@@ -56,10 +57,13 @@ CLAIMED = {
              "program of assign/use lines refines the reference environment semantics of Spec/Env.v line by line (latest binding "
              "wins, a binding stores a value so later re-assignments of other names never change it, a failing line leaves every "
              "existing binding unchanged); any line changes at most one variable; names are matched case-insensitively; "
-             "pick_variable returns the closest-then-longest matching name; find_location is sound and complete (least index). Two "
-             "genuine defects are characterised by refuted-witness theorems and listed as known findings (ghost variable after a "
-             "failing assignment, name-key collision of `ab` / `a b`). Text->token step and the model-vs-code tie: per-run "
-             "differential check on generated programs (single exec and re-used sessions) with an independent reference interpreter.",
+             "pick_variable returns the closest-then-longest matching name; find_location is sound and complete (least index); a "
+             "line that fails leaves the session EXACTLY as it was; the parser's lookup key is the storage key (all name tokens "
+             "joined by a space) for every token list, and distinct names have distinct keys. The three former findings (ghost "
+             "variable, name-key collision, operator-word cross-write) are repaired in /repo and pinned as computed theorems. "
+             "Text->token step and the model-vs-code tie: per-run differential check on generated programs (single exec and "
+             "re-used sessions) with an independent reference interpreter plus equivalence cases (a line using bound names "
+             "evaluates like the same line with the values written out).",
         design="DESIGN.md section 7 C03", technique="Coq proof: refinement to an abstract environment by induction over programs + model/implementation correspondence"),
     "C05": dict(
         text="Theorems over exact rationals for ALL X A B p: the five rule functions and the interpreter's percent operand give the "
@@ -160,8 +164,10 @@ CLAIMED = {
              "default zone); `to ZONE` keeps the instant and swaps the display zone, so `T A to B` prints (w - 60a + 60b) mod 24h; "
              "+/- a duration moves the clock modulo 24 h; `T1 to T2` is |t1 - t2|; the default zone after any history is the last "
              "one set successfully. Finite tables through the real regexes and the whole pipeline: all H:MM / H:MM:SS / am-pm "
-             "forms, all 174 expressible non-currency zones of the regenerated table, 5490 GMT forms. Tie: per-run differential "
-             "check (thorough: all 174^2 ordered zone pairs) with an integer-arithmetic oracle.",
+             "forms, all 174 expressible non-currency zones of the regenerated table, 5490 GMT forms. One known finding "
+             "(C11-K1, C11_both_zoned_refuted): `T1 Z1 to T2 Z2` with BOTH operands zoned on one line fails. Tie: per-run "
+             "differential check (thorough: all 174^2 ordered zone pairs; zones on either operand of `T1 to T2`, also under "
+             "language tr) with an integer-arithmetic oracle.",
         design="DESIGN.md section 7 C11", technique="Coq proof (lia with mod arithmetic, induction over set_timezone histories, finite tables by vm_compute) + model/implementation correspondence"),
 
     "C16": dict(
@@ -188,10 +194,10 @@ CLAIMED = {
         design="DESIGN.md section 7 C19", technique="Coq proof (parametricity in the language tag, finite tables over both languages' regenerated data) + model/implementation correspondence on translated line pairs"),
 
     "C15": dict(
-        text="Partial. The full statement is FALSE in the faithful model (C15_full_partial) and ten mechanisms by which a "
+        text="Partial. The full statement is FALSE in the faithful model (C15_full_partial) and nine mechanisms by which a "
              "printed form does not re-read are refuted-witness theorems and listed known findings (negative zero, separators "
-             "outside [.,], money symbols that are no reader name or name another currency, zero duration, 12 months, tr time+zone, "
-             "date-time print, raw unix timestamp, hex/currency). Proved: finite tables over the regenerated data that every printed "
+             "outside [.,], money symbols that are no reader name or name another currency, zero duration, 12 months, "
+             "date-time print, raw unix timestamp, hex/currency; the former tr time+zone finding is repaired in /repo). Proved: finite tables over the regenerated data that every printed "
              "duration word, unit word, month word (en and tr) and all 191 zone names re-read as themselves, the exact partition of "
              "the 161 currencies into re-readable / not; unbounded: based integers (C13 composition), durations with < 12 months "
              "re-read part by part and recombine to |secs| for ALL second counts, the reader normalises the printed number for ALL "
